@@ -195,7 +195,11 @@ EXPECTED_SIG = {
     'r2q': (['R[0, 0] >= R[1, 1]', 'R[0, 0] >= R[2, 2]', 'R[1, 1] >= R[2, 2]', '_v >= 0', 'abs(_v) < tol * _eps', 'not base.isrot(R, check=check, tol=tol)',
              'np.trace(R) > 0'],
             ['0', '1', '1.0', '2', '2.0', '4.0'], ['ValueError', 'abs', 'base.isrot', 'eye', 'math.sqrt', 'max', 'np.dot', 'np.linalg.norm', 'np.trace']),
-    'isunitvec': (['abs(np.linalg.norm(v) - 1) < tol * _eps'], ['1'], ['abs', 'np.linalg.norm']),
+    # isunitvec since fix b29003f: the norm is taken of _asdouble(v), a wrapper that promotes float16/float32 arrays to float64 and returns every
+    # other argument (float64 arrays, lists, object arrays) unchanged: for the float64 values the model is about it is the identity.  The wrapper is
+    # recorded as a callee here and has its own recorded signature below, so a change of either is noticed.
+    'isunitvec': (['abs(np.linalg.norm(_asdouble(v)) - 1) < tol * _eps'], ['1'], ['_asdouble', 'abs', 'np.linalg.norm']),
+    '_asdouble': (['isinstance(v, np.ndarray)', 'v.dtype.itemsize < 8', "v.dtype.kind == 'f'"], ['8'], ['isinstance', 'v.astype']),
     # trinterp: its own range test on s (and the constants in it) is executed concolically (pc_trinterp_*), not fixed here: slerp checks the range too
     'trinterp': (['base.ismatrix(end, (3, 3))', 'base.ismatrix(end, (4, 4))', 'start is None'], None,
                  ['ValueError', 'base.eye', 'base.ismatrix', 'base.q2r', 'base.r2q', 'base.rt2tr', 'base.slerp', 'base.t2r', 'transl']),
@@ -208,6 +212,7 @@ EXPECTED_SIG = {
                 'math.sin', 'np.clip', 'self.interp']),
 }
 EXPECTED['isunitvec'] = []
+EXPECTED['_asdouble'] = ["isinstance(v, np.ndarray) and v.dtype.kind == 'f' and (v.dtype.itemsize < 8)"]
 EXPECTED_SIG_ALT, EXPECTED_ALT = {}, {}
 
 
@@ -222,7 +227,7 @@ def consts_from_ast(ctx):
     qc = src('spatialmath/quaternion.py')
     vt = src('spatialmath/base/vectors.py')
     res, notes = {}, []
-    for name, tree, cls in (('slerp', qt, None), ('unit', qt, None), ('r2q', qt, None), ('isunitvec', vt, None), ('trinterp', t3, None),
+    for name, tree, cls in (('slerp', qt, None), ('unit', qt, None), ('r2q', qt, None), ('isunitvec', vt, None), ('_asdouble', vt, None), ('trinterp', t3, None),
                             ('interp', qc, 'UnitQuaternion')):
         fn = _func(tree, name, cls)
         atoms, consts, callees, _ = signature(fn, ['s'] if name == 'trinterp' else None)
